@@ -145,9 +145,15 @@ impl RdbEngine {
         // Write to temporary file
         self.write_snapshot(storage, &temp_path)?;
         
+        #[cfg(feature = "verif-hooks")]
+        crate::verif_hooks::point(crate::verif_hooks::RDB_RENAME_BEFORE, 0);
+        
         // Atomic rename
         std::fs::rename(&temp_path, &self.file_path)
             .map_err(|e| FerrousError::Io(format!("Failed to rename RDB file: {}", e)))?;
+        
+        #[cfg(feature = "verif-hooks")]
+        crate::verif_hooks::point(crate::verif_hooks::RDB_RENAME_AFTER, 0);
         
         // Update last save time
         {
@@ -176,6 +182,9 @@ impl RdbEngine {
         
         // Spawn background thread
         thread::spawn(move || {
+            #[cfg(feature = "verif-hooks")]
+            crate::verif_hooks::point(crate::verif_hooks::BGSAVE_BEGIN, 0);
+            
             println!("RDB: Background saving started");
             
             match engine.save(&storage) {
@@ -186,6 +195,9 @@ impl RdbEngine {
             // Clear in-progress flag
             let mut bgsave = engine.bgsave_in_progress.lock().unwrap();
             *bgsave = false;
+            
+            #[cfg(feature = "verif-hooks")]
+            { drop(bgsave); crate::verif_hooks::point(crate::verif_hooks::BGSAVE_END, 0); }
         });
         
         Ok(())
@@ -433,11 +445,20 @@ impl RdbEngine {
                 
                 // Write each key-value pair
                 for key in keys {
+                    #[cfg(feature = "verif-hooks")]
+                    crate::verif_hooks::point(crate::verif_hooks::RDB_KEY_GET, db_idx as u64);
+                    
                     // Get value
                     match storage.get(db_idx, &key)? {
                         GetResult::Found(value) => {
+                            #[cfg(feature = "verif-hooks")]
+                            crate::verif_hooks::point(crate::verif_hooks::RDB_KEY_TTL, db_idx as u64);
+                            
                             // Get TTL if any
                             let ttl = storage.ttl(db_idx, &key)?;
+                            
+                            #[cfg(feature = "verif-hooks")]
+                            crate::verif_hooks::point(crate::verif_hooks::RDB_KEY_WRITE, db_idx as u64);
                             
                             // Write key-value pair
                             writer.write_key_value(&key, &value, ttl)?;
@@ -568,6 +589,9 @@ impl<W: Write> RdbWriter<W> {
                 let len = skiplist.len();
                 self.write_length(len)?;
                 
+                #[cfg(feature = "verif-hooks")]
+                crate::verif_hooks::point(crate::verif_hooks::RDB_ZSET_MID, len as u64);
+                
                 // Note: This is a suboptimal approach since we need to materialize
                 // all members in memory. A better approach would be to have a streaming
                 // iterator in the SkipList implementation.
@@ -682,6 +706,11 @@ impl<W: Write> RdbWriter<W> {
     
     /// Write raw bytes
     fn write_raw(&mut self, data: &[u8]) -> io::Result<()> {
+        #[cfg(feature = "verif-hooks")]
+        if crate::verif_hooks::point(crate::verif_hooks::RDB_WRITE, data.len() as u64) == 1 {
+            return Err(io::Error::new(io::ErrorKind::Other, "verif: injected write failure"));
+        }
+        
         self.writer.write_all(data)?;
         self.bytes_written += data.len() as u64;
         // Update CRC (simplified - real implementation would use CRC64)
